@@ -79,7 +79,10 @@ class C14(Prop):
     LEVEL_TEXT = ("PARTIAL (interpreter level). Coq theorems about the interpreter model extended with injected snippets "
                   "(detached subtrees with an InjectedNode root): the injection itself touches no line; in EVERY run with any "
                   "injections at any ticks a line outside Alarm bodies -- of the method or of a snippet -- that has started "
-                  "stays started and one that has completed stays completed (it runs at most once). That a snippet without "
+                  "stays started and one that has completed stays completed (it runs at most once), and a started line -- of the "
+                  "method or of a snippet -- lies in a scope that has started (the snippet's lines run inside the snippet's own "
+                  "scopes, no injection starts a method line outside its scope: stack invariant carried through the "
+                  "injections; hypotheses wf_b and parentless injected roots, evaluated by the monitor on every case). That a snippet without "
                   "blocks leaves the method lines exactly where an injection-free run has them is decided by the Coq monitor; "
                   "one clause is refuted (an injected Block can never be ended: known finding). Not covered: Pause / Hold, the "
                   "command manager, live edits (they drop unfinished injected code: same defect family as C01).")
